@@ -842,6 +842,17 @@ class Association(threading.Thread):
         rsp.AffectedSOPInstanceUID = req.AffectedSOPInstanceUID
         rsp.AffectedSOPClassUID = req.AffectedSOPClassUID
 
+        # The request must use an accepted presentation context, otherwise
+        #   `_get_valid_context()` would fall back to all accepted contexts
+        if req._context_id not in self._accepted_cx:
+            LOGGER.info(
+                "Received DIMSE message with invalid or rejected "
+                f"context ID: {req._context_id}"
+            )
+            LOGGER.debug(str(req))
+            self.abort()
+            return
+
         try:
             context = self._get_valid_context(
                 cast(UID, req.AffectedSOPClassUID),
@@ -2147,6 +2158,12 @@ class Association(threading.Thread):
                 # Received a C-STORE request from the peer
                 # Should occur during C-GET and may occur during C-MOVE
                 self._c_store_scp(rsp)
+                if self.is_aborted:
+                    # Request used an invalid presentation context
+                    self._reactor_checkpoint.set()
+                    yield Dataset(), None
+                    return
+
                 continue
 
             if not rsp.is_valid_response:
